@@ -27,7 +27,7 @@ def tiny_kernels(start):
     out = []
     for p in fogen.kernels(start):
         txt = json.dumps(p)
-        if any(x in txt for x in ('"lam"', '"smatch"', '"letfun"', '"op": "*"', '"tuple", "es": [{"k": "probe"', '"slice", "es": [{"k": "probe"')):
+        if any(x in txt for x in ('"lam"', '"smatch"', '"letfun"', '"tparams"', '"op": "*"', '"tuple", "es": [{"k": "probe"', '"slice", "es": [{"k": "probe"')):
             continue
         if p.get("mtype") not in (fogen.INT, fogen.STR, fogen.BOOL):
             continue
